@@ -91,6 +91,7 @@ func (r *Run) RunScenario(sc *Scenario) {
 	ch := make(chan *Case, 256)
 	var wg sync.WaitGroup
 	outcomes := map[string]int{}
+	outSamples := map[string][]string{}
 	var expl ExploreStats
 	capped := false
 	go func() {
@@ -138,6 +139,9 @@ func (r *Run) RunScenario(sc *Scenario) {
 					r.ntKeys[h64(sc.Name+"|"+k)] = struct{}{}
 				}
 				outcomes[v.Outcome]++
+				if r.Cfg.Triage && len(outSamples[v.Outcome]) < 400 {
+					outSamples[v.Outcome] = append(outSamples[v.Outcome], cs.Key+"  ## "+firstDiag(rs))
+				}
 				if len(v.Fails) > 0 {
 					st.FailedCases++
 				}
@@ -167,6 +171,18 @@ func (r *Run) RunScenario(sc *Scenario) {
 		r.outcomes[sc.Name+"/"+k] += v
 	}
 	st.WallS = time.Since(t0).Seconds()
+	if r.Cfg.Triage {
+		for o, ks := range outSamples {
+			if o == "ok" || o == "assembled" {
+				continue
+			}
+			sort.Strings(ks)
+			step := len(ks)/8 + 1
+			for i := 0; i < len(ks); i += step {
+				fmt.Printf("   outcome[%s] %s\n", o, oneLine(ks[i]))
+			}
+		}
+	}
 	fmt.Printf("scenario %-28s cases=%d states=%d transitions=%d nontrivial=%d outcomes=%d failed_cases=%d skipped=%d exhaustive=%v %.1fs\n",
 		sc.Name, st.Cases, st.States, st.Transitions, st.Nontrivial, st.Outcomes, st.FailedCases, st.Skipped, st.Exhaustive, st.WallS)
 }
@@ -359,6 +375,28 @@ func (r *Run) triage(unmatched []*failRec) {
 		}
 	}
 	sort.SliceStable(order, func(i, j int) bool { return m[order[i]].n > m[order[j]].n })
+	if pf := os.Getenv("VERIF_PROPOSE"); pf != "" {
+		f, _ := os.Create(pf)
+		for i, k := range order {
+			c := m[k]
+			cell := map[string][]string{}
+			for fk, vals := range c.feats {
+				if len(vals) > 40 {
+					continue
+				}
+				for v := range vals {
+					cell[fk] = append(cell[fk], v)
+				}
+				sort.Strings(cell[fk])
+			}
+			e := map[string]any{"kind": "finding", "property": r.Cfg.Prop, "id": fmt.Sprintf("%s-P%03d", r.Cfg.Prop, i+1), "scenario": c.first.Scenario,
+				"facet": c.first.Fail.Facet, "deviation": c.first.Fail.Dev, "cell": cell, "what": "TODO",
+				"witness": map[string]any{"case": c.first.Key, "srcs": c.first.Srcs, "detail": c.first.Fail.Detail, "cases": c.n}}
+			b, _ := json.Marshal(e)
+			f.Write(append(b, '\n'))
+		}
+		f.Close()
+	}
 	fmt.Printf("=== TRIAGE: %d unmatched failures in %d clusters ===\n", len(unmatched), len(order))
 	for _, k := range order {
 		c := m[k]
@@ -482,4 +520,25 @@ func (r *Run) Replay(file string) int {
 	}
 	fmt.Printf("NOT REPRODUCED: %s\n", note)
 	return 0
+}
+
+func firstDiag(rs []*Result) string {
+	if len(rs) == 0 {
+		return ""
+	}
+	r := rs[0]
+	if r.Panic != "" {
+		return "panic: " + firstLines(r.Panic, 1)
+	}
+	if r.ParseErr != "" {
+		return "parse: " + oneLine(r.ParseErr)
+	}
+	e, w := DiagLines(r)
+	if len(e) > 0 {
+		return e[0]
+	}
+	if len(w) > 0 {
+		return w[0]
+	}
+	return ""
 }
